@@ -1062,6 +1062,59 @@ def run(ctx, anchors=None):
     ctx.extra["R15.14_not_explored"] = skipped14
     ctx.floor("R15.14", ncs14, 2, "functions deciding a container size and subscripting it with constants")
 
+    # ---- R15.15 iterator / container pairing in loops over several scripts: where a loop decodes a different script in each
+    # iteration (the receiver of GetOp depends on the loop index), the iterator handed to GetOp must have been taken from that
+    # script in the same iteration, except in the first iteration (index decided 0), where the caller's position is used.
+    ctx.rule("R15.15", "the iterator passed to <script>.GetOp in a loop over scripts belongs to that script (re-taken every iteration but the first)")
+    n1515 = 0
+    for f in fb.funcs.values():
+        if not auth(f):
+            continue
+        for L in [n for n in f.nodes() if n["k"] == "for" and n.get("body") is not None]:
+            calls = [x for x in walk(L["body"]) if x["k"] == "mcall" and x.get("n") == "GetOp"]
+            if not calls or L.get("init") is None or L["init"].get("k") != "decl":
+                continue
+            ivar = L["init"]["decls"][0]["n"]
+            X = _sx.Explorer(prog, inline=lambda fn, n_: False, transparent=lambda n_: True)
+            try:
+                outs = X.explore(f, this=("a", "this"), body=L["body"], limit=2000)
+            except _sx.Unsupported:
+                continue
+            IV = ("a", ivar)
+
+            def flat(lst):
+                for e in lst:
+                    yield e
+                    if getattr(e, "body", None):
+                        for y in flat(e.body):
+                            yield y
+            varying = False
+            bad15 = None
+            for o in outs:
+                first = any((t == ("eq", _sx.C(0), IV) or t == ("eq", IV, _sx.C(0))) and v for (t, v) in o.conds) or \
+                    any(t == ("ap", "<", _sx.C(0), IV) and not v for (t, v) in o.conds) or any(t == IV and not v for (t, v) in o.conds)
+                for e in flat(o.events):
+                    if e.kind == "mcall" and e.name == "GetOp" and len(e.terms) >= 2:
+                        recv, it_ = e.terms[0], e.terms[1]
+                        if not _sx.contains(recv, IV):
+                            continue
+                        varying = True
+                        base = it_
+                        while isinstance(base, tuple) and base[0] == "ap" and base[1].startswith("out:GetOp") and len(base) > 2:
+                            base = base[2]
+                        own = isinstance(base, tuple) and base[:2] in (("ap", "m:begin"), ("ap", "m:cbegin")) and base[2] == recv
+                        if not own and not first:
+                            bad15 = (_sx.show(base)[:40], _sx.show(recv)[:40])
+            if not varying:
+                continue
+            n1515 += 1
+            ctx.site(len(outs))
+            ctx.inst(bad15 is None, "R15.15", "iterator-of-the-same-script@" + f.name, f.loc(L),
+                     "every GetOp in the loop over scripts uses an iterator taken from the script of that iteration (or the caller's position in the first iteration)",
+                     "%s: an iteration other than the first can hand the iterator `%s` to %s.GetOp: it points into the previous script when decoding of that script stopped early "
+                     "(a truncated push), so the next script is decoded from foreign memory" % ((f.name,) + bad15 if bad15 else (f.name, "", "")))
+    ctx.floor("R15.15", n1515, 1, "loops decoding one script per iteration")
+
     # ---------------------------------------------------------------- R15.9
     ev = fb.fn("Instance::eval", file="instance.cpp")
     opstep = fb.fn("StepScript", file="script/interpreter.cpp")
@@ -1276,6 +1329,7 @@ def callers_establish(fb, prog, ctor, a, K):
 
 
 MUTANTS = [
+    dict(name="listing-iterator-carried-over", file="functions.cpp", find="        if (siter > 0) {\n            if (headers[siter] != \"\") {", replace="        if (begun) {\n            if (headers[siter] != \"\") {", expect=["R15.15:iterator-of-the-same-script@svprintscripts"]),
     dict(name="subscript-beyond-accepted-length", file="value.h", find="        if (data.size() != 25) {", replace="        if (data.size() != 25 && data.size() != 23) {", expect=["R15.14:subscript-within-decided-size@Value::do_spk_to_addr"]),
     dict(name="nesting-limit-removed", file="value.h", find="                    if (depth > MAX_BRACKET_DEPTH) {\n                        fprintf(stderr, \"parse error, [brackets nested more than %zu deep\\n\", MAX_BRACKET_DEPTH);\n                        exit(1);\n                    }\n", replace="", expect=["R15.13:cycle=Value::Value+Value::parse_args:nesting-limit"]),
     dict(name="token-array-on-the-stack", file="value.h", find="        std::vector<char*> args_ptr;\n", replace="        char* args_ptr_[args_len + 1];\n        std::vector<char*> args_ptr;\n        args_ptr_[0] = nullptr;\n", expect=["R15.13:cycle=Value::Value+Value::parse_args:no-vla-across-recursion"]),
